@@ -370,3 +370,4 @@ func verifConnIsolation(prop string) {
 }
 func verif_C08_failed_starttls_stub() { verifFailedStartTLS("C08") }
 func verif_C08_starttls_close_stub()  { verifStartTLSClose("C08") }
+func verif_C08_chunk_timeout()        { verifChunkTimeout("C08") }
